@@ -205,7 +205,7 @@ func (cx *xctx) eval(n *xnode) xval {
 		case "**":
 			return xval{k: 'i', i: int64(math.Pow(float64(a), float64(b)))}
 		}
-		return xval{k: 'b', b: xcmp(n.op, a < b, a == b)}
+		return xval{k: 'b', b: xcmpI(n.op, a, b)}
 	}
 	// int mixed with float is computed in float
 	a, b := l.f, r.f
@@ -235,23 +235,40 @@ func (cx *xctx) eval(n *xnode) xval {
 	case "**":
 		return xval{k: 'f', f: math.Pow(a, b)}
 	}
-	return xval{k: 'b', b: xcmp(n.op, a < b, a == b)}
+	return xval{k: 'b', b: xcmpF(n.op, a, b)}
 }
 
-func xcmp(op string, lt, eq bool) bool {
+func xcmpI(op string, a, b int64) bool {
 	switch op {
 	case "<":
-		return lt
+		return a < b
 	case "<=":
-		return lt || eq
+		return a <= b
 	case ">":
-		return !lt && !eq
+		return a > b
 	case ">=":
-		return !lt
+		return a >= b
 	case "==":
-		return eq
+		return a == b
 	}
-	return !eq
+	return a != b
+}
+
+// (not derived from < and ==: with a NaN operand every ordering comparison and == are false, != is true)
+func xcmpF(op string, a, b float64) bool {
+	switch op {
+	case "<":
+		return a < b
+	case "<=":
+		return a <= b
+	case ">":
+		return a > b
+	case ">=":
+		return a >= b
+	case "==":
+		return a == b
+	}
+	return a != b
 }
 
 func (v xval) show() string {
@@ -272,7 +289,7 @@ var xLeaves = []*xnode{
 	{text: "0.1", val: xval{k: 'f', f: 0.1}}, {text: "0.5", val: xval{k: 'f', f: 0.5}}, {text: "2.5", val: xval{k: 'f', f: 2.5}}, {text: "0.3", val: xval{k: 'f', f: 0.3}},
 	{text: "10000000000000000.0", val: xval{k: 'f', f: 1e16}},
 	{text: "true", val: xval{k: 'b', b: true}}, {text: "false", val: xval{k: 'b', b: false}},
-	{text: "N"}, {text: "M"}, {text: "F"}, {text: "N"}, {text: "F"}, {text: "B0"},
+	{text: "N"}, {text: "M"}, {text: "F"}, {text: "N"}, {text: "F"}, {text: "B0"}, {text: "Q"},
 }
 
 var xArith = []string{"+", "-", "*", "/", "%", "**", "+", "-", "*", "+", "*"}
@@ -371,7 +388,7 @@ func TestRAC_C12(t *testing.T) {
 					obj, _, desc := racObject(1, shape)
 					cx := &xctx{fields: map[string]xval{
 						"N": {k: 'i', i: int64(obj["N"].(int))}, "M": {k: 'i', i: int64(obj["M"].(int))},
-						"F": {k: 'f', f: obj["F"].(float64)}, "B0": {k: 'b', b: obj["B0"].(bool)}}}
+						"F": {k: 'f', f: obj["F"].(float64)}, "B0": {k: 'b', b: obj["B0"].(bool)}, "Q": {k: 'f', f: obj["Q"].(float64)}}}
 					want := cx.eval(tree)
 					if cx.ambiguous {
 						continue
